@@ -2,6 +2,7 @@
 mod c01;
 mod c03;
 mod c05;
+mod c07;
 mod c08;
 mod c09;
 mod c10;
@@ -69,6 +70,7 @@ fn main() {
                 }
                 "C14" => c14::run(&ctx),
                 "C18" => c18::run(&ctx),
+                "C07" => c07::run(&ctx),
                 "C15" => c15::run(&ctx),
                 "C19" => c19::run(&ctx),
                 "C16" => {
@@ -103,7 +105,9 @@ fn main() {
             let v: serde_json::Value = serde_json::from_str(&txt).expect("replay file is not JSON");
             let h = v["harness"].as_str().unwrap_or("").to_string();
             println!("replaying {} (property {}, rule {})", h, v["property"], v["rule"]);
-            let violated = if h.starts_with("c11.") {
+            let violated = if h == "c07.t1" {
+                c07::replay_c07(&v)
+            } else if h.starts_with("c11.") {
                 c11::replay(&v)
             } else if h.starts_with("x2.client-limit") || h.starts_with("x2.server-limit") {
                 c05::replay(&v).unwrap_or(false)
